@@ -25,6 +25,7 @@ type profile struct {
 	stopPct     int // StopMode 1
 	stop2Pct    int // StopMode 2 (Stop before Run)
 	passiveEnd  bool
+	passivePct  int // with Stop: clients do nothing on their own once Stop is invoked (pct of such runs)
 	faults      []string
 	faultBudget int
 	negPct      int
@@ -42,6 +43,9 @@ type profile struct {
 	tlsPct      int  // the listener is TLS (mode 1 or 2)
 	startTLSPct int  // a client upgrades with StartTLS (plain listener only)
 	misbehave   bool // C18: clients that do not satisfy the TLS configuration
+	exactPct    int  // a handler's last response is padded to a buffer-size boundary
+	noTLSRoute  int  // C13: no StartTLS route registered, the default route upgrades (pct)
+	again       int  // C13: a further StartTLS request inside the tunnel (pct)
 }
 
 func profileFor(prop, tier string) profile {
@@ -58,6 +62,10 @@ func profileFor(prop, tier string) profile {
 		base.rich, base.negPct, base.maxReqs, base.stallPct = true, 12, pick(8, 16), 10
 		base.richResp = prop == "C14"
 		base.bigPct = 3
+		if prop == "C01" {
+			// a read deadline that expires in the middle of a frame
+			base.timeoutPct, base.faults, base.faultBudget = 6, []string{"clock"}, 2
+		}
 		if prop == "C14" {
 			base.extraFrames, base.stallPct = 2, 30
 		}
@@ -66,7 +74,9 @@ func profileFor(prop, tier string) profile {
 	case "C04":
 		base.rich, base.richResp, base.maxReqs, base.extraFrames, base.bigPct = false, true, pick(6, 12), 2, 4
 		base.windowPct = 20
+		base.exactPct = 6
 	case "C05":
+		base.exactPct = 8
 		base.maxConns, base.minReqs, base.maxReqs = 2, 2, pick(48, 400)
 		base.extraFrames, base.bigPct, base.windowPct, base.pausePct, base.stallPct = 4, 10, 50, 20, 40
 		base.richResp = true
@@ -90,8 +100,9 @@ func profileFor(prop, tier string) profile {
 		base.maxConns, base.maxReqs = pick(5, 8), 5
 		base.endings = []string{"close", "halfclose", "reset", "unbind", "midframe", "garbage", "negative", "", "close"}
 		base.onClose = []int{1, 1, 2}
-		base.stallPct, base.longPct, base.windowPct, base.pausePct = 35, 15, 25, 15
-		base.stopPct, base.timeoutPct = 25, 15
+		base.stallPct, base.longPct, base.windowPct, base.pausePct = 35, 15, 35, 30
+		base.stopPct, base.timeoutPct = 35, 15
+		base.panicPct, base.bigPct, base.passivePct = 5, 6, 50
 		base.faults, base.faultBudget = []string{"reset", "clock"}, 2
 		base.extraFrames = 2
 		base.tlsPct, base.startTLSPct = 10, 15
@@ -110,6 +121,7 @@ func profileFor(prop, tier string) profile {
 	case "C11":
 		base.maxConns, base.maxReqs = pick(4, 8), pick(6, 24)
 		base.stopPct, base.passiveEnd = 100, true
+		base.stop2Pct = 8 // Stop while Run is still starting up: Run must return all the same
 		base.endings = []string{"", "", "", "midframe-open", "close", "unbind", "halfclose"}
 		base.windowPct, base.pausePct, base.stallPct = 35, 35, 25
 		base.extraFrames, base.bigPct = 2, 10
@@ -121,15 +133,17 @@ func profileFor(prop, tier string) profile {
 		base.stopPct, base.stop2Pct = 80, 20
 		base.onClose = []int{1, 2, 2}
 		base.stallPct, base.longPct = 40, 10
-		base.endings = []string{"", "", "close", "midframe-open", "reset"}
+		base.endings = []string{"", "", "close", "midframe-open", "reset", "unbind", "halfclose"}
 		base.tlsPct, base.startTLSPct = 15, 15
 		base.faults, base.faultBudget = []string{"reset"}, 2
+		base.windowPct, base.pausePct, base.bigPct, base.extraFrames, base.passivePct = 25, 25, 8, 2, 35
 	case "C13":
 		base.maxConns, base.maxReqs = pick(4, 6), pick(6, 12)
 		base.startTLSPct = 85
 		base.endings = []string{"", "", "close"}
 		base.faults, base.faultBudget, base.stopPct = []string{"clock"}, 2, 15
 		base.stallPct, base.extraFrames, base.richResp, base.rich = 30, 2, true, true
+		base.tlsPct, base.noTLSRoute, base.again = 12, 25, 20
 	case "C18":
 		base.maxConns, base.maxReqs = pick(5, 8), 4
 		base.tlsPct, base.misbehave = 100, true
@@ -147,6 +161,7 @@ func profileFor(prop, tier string) profile {
 		base.extraFrames, base.readyPoll, base.richResp, base.rich = 3, true, true, true
 		base.timeoutPct = 10
 		base.tlsPct, base.startTLSPct = 15, 25
+		base.panicPct = 4
 	}
 	return base
 }
@@ -256,6 +271,16 @@ func DrawCore(prop, tier string, ch *Chooser, lean bool, s *Sim) *Core {
 		if p.unbindPct > 0 && ch.Choose(2) == 1 {
 			cfg.Routes = cfg.Routes[:len(cfg.Routes)-1] // no unbind route
 		}
+		if ch.Chance(p.noTLSRoute) {
+			// the application handles StartTLS in its default route
+			var rs []RouteSpec
+			for _, r := range cfg.Routes {
+				if !(r.Kind == "extended" && r.ExtName == oidStartTLS) {
+					rs = append(rs, r)
+				}
+			}
+			cfg.Routes = rs
+		}
 		if prop == "C10" && ch.Choose(3) == 2 {
 			// no default route either
 			var rs []RouteSpec
@@ -283,7 +308,7 @@ func DrawCore(prop, tier string, ch *Chooser, lean bool, s *Sim) *Core {
 		cfg.StopAt = ch.Choose(120)
 		cfg.SecondStop = ch.Choose(3) == 2
 	}
-	cfg.PassiveEnd = p.passiveEnd
+	cfg.PassiveEnd = p.passiveEnd || (cfg.StopMode == 1 && p.passivePct > 0 && ch.Chance(p.passivePct))
 	cfg.HoldAll = p.holdAll
 	cfg.ReadyPoll = p.readyPoll
 	if len(p.faults) > 0 && ch.Choose(4) != 0 {
@@ -384,9 +409,15 @@ func DrawCore(prop, tier string, ch *Chooser, lean bool, s *Sim) *Core {
 		for j := 0; j < nReq; j++ {
 			var rec *ReqRec
 			neg := false
+			againTLS := false
 			switch {
 			case j == startTLSAt:
 				rec = &ReqRec{Op: "extended", MsgID: g.MsgID(), BindVersion: 3, ExtName: oidStartTLS}
+			case j != unbindAt && cl.Flavour != 0 && j > startTLSAt && ch.Chance(p.again):
+				// StartTLS asked for inside the tunnel: the handler refuses, and
+				// it is still handled on its own (C13)
+				rec = &ReqRec{Op: "extended", MsgID: g.MsgID(), BindVersion: 3, ExtName: oidStartTLS}
+				againTLS = true
 			case j == unbindAt:
 				rec = g.Request("unbind")
 			case ch.Chance(p.negPct) || (ending == "negative" && j == nReq-1):
@@ -415,6 +446,12 @@ func DrawCore(prop, tier string, ch *Chooser, lean bool, s *Sim) *Core {
 				q.Script.Resps = []*RespSpec{{Ctor: "extended", HasCode: true, Code: 0}}
 				q.Script.StartTLS = true
 				q.Script.StallAfter = ch.Choose(4)
+			} else if againTLS {
+				q.Script.Panic = false
+				q.Script.Resps = []*RespSpec{{Ctor: "extended", HasCode: true, Code: 1}}
+				if ch.Choose(2) == 1 {
+					q.Script.Stall = 1
+				}
 			} else if rec.Op == "extended" && rec.ExtName == oidStartTLS {
 				rec.ExtName = "1.3.6.1.4.1.4203.1.11.3" // only the scripted upgrade uses the StartTLS name
 				t, _ = rec.TLV()
@@ -473,9 +510,16 @@ func DrawCore(prop, tier string, ch *Chooser, lean bool, s *Sim) *Core {
 				}
 			}
 		}
-		if ch.Chance(p.pausePct) && len(cl.Steps) > 0 && cl.Flavour == 0 {
+		pausePct := p.pausePct
+		if cfg.PassiveEnd && p.passivePct > 0 {
+			pausePct = 60 // Stop will find clients that never read again
+		}
+		if ch.Chance(pausePct) && len(cl.Steps) > 0 && cl.Flavour == 0 {
 			at := ch.Choose(len(cl.Steps))
 			cl.Steps = append(cl.Steps[:at], append([]CStep{{Kind: stPause}}, cl.Steps[at:]...)...)
+			if cfg.PassiveEnd && p.passivePct > 0 && ch.Choose(2) == 1 {
+				cl.Window = []int{7, 64}[ch.Choose(2)]
+			}
 		}
 		switch ending {
 		case "close":
@@ -575,6 +619,9 @@ func (c *Core) drawScript(q *Req, p profile, ch *Chooser, g *Gen) {
 		// a handler that streams entries and (not yet, or never) finishes
 	} else {
 		sc.Resps = append(sc.Resps, g.Resp(op, true, p.richResp))
+	}
+	if ch.Chance(p.exactPct) {
+		sc.Resps[len(sc.Resps)-1].PadTo(q.Rec.MsgID, []int{4095, 4096, 4097, 8192, 4096, 4096}[ch.Choose(6)])
 	}
 	sc.ReuseCtrl = p.richResp && ch.Choose(2) == 1
 	defer func() {
